@@ -110,53 +110,7 @@ def run(cx):
         check_callers(ob, prog, "anemo::config::EndpointConfig::client_config_with_expected_server_identity", [b.path], exact=1, what="pinned client config")
 
     with cx.ob("C03.3", "R-MUSTPASS", "ExpectedCertVerifier::verify_server_cert: id of presented cert compared with the pin before delegating; mismatch → Err") as ob:
-        b = cx.impl_method(EV, "ServerCertVerifier", "verify_server_cert")
-        cv = cx.impl_method(f"{CR}::CertVerifier", "ServerCertVerifier", "verify_server_cert")
-
-        def call_sym(c, o):
-            if name_matches(c.fn, f"{CR}::peer_id_from_certificate"):
-                return "id(end_entity)" if is_param(o.of_operand(c.args[0]), "end_entity") else "id(?)"
-            if c.res == cv.path or name_matches(c.fn, "ServerCertVerifier::verify_server_cert"):
-                a = [o.of_operand(x) for x in c.args]
-                ok = mentions_field(a[0], "0") and mentions_param(a[0], "self") and is_param(a[1], "end_entity") and is_param(a[2], "intermediates") \
-                    and is_param(a[3], "server_name") and is_param(a[5], "now") and c.dest == 0 and c.res == cv.path
-                return "ret=delegate(end_entity)" if ok else "delegate(?)"
-            if name_matches(c.fn, ("ServerCertVerified::assertion",)):
-                return "assertion!"
-            return None
-
-        def extra(a, bb, subj, labels, o):
-            n = normalize_cmp(subj)
-            if n is None:
-                return None
-            neg, op, x, y = n
-            if op not in ("eq", "ne") or labels not in ({"true"}, {"false"}):
-                return None
-            sides = []
-            for t in (x, y):
-                if term_has_call(t, f"{CR}::peer_id_from_certificate") and any(v[0] == "variant" and v[2] == "Continue" for v in walk(t)):
-                    sides.append("presented")
-                elif mentions_field(t, "1") and mentions_param(t, "self"):
-                    sides.append("pin")
-                else:
-                    sides.append("?")
-            if sorted(sides) != ["pin", "presented"]:
-                return f"?cmp({show(x)[:30]},{show(y)[:30]})"
-            equal = (labels == {"true"}) != neg
-            if op == "ne":
-                equal = not equal
-            return "pin==presented" if equal else "pin!=presented"
-
-        def stmt_sym(bbi, s, o):
-            if s["lhs"] == 0 and s["rv"]["k"] == "agg" and s["rv"].get("adt") == "core::result::Result":
-                return "ret=" + s["rv"]["variant"]
-            return None
-        ws = seq_words(b, call_sym, stmt_sym, extra)
-        # an error exit is an error exit whether written `return Err(..)` or propagated with `?` (from a helper that built it)
-        ws = {tuple(x_ for i_, x_ in enumerate(w2) if not (x_ == "ret=Err" and i_ > 0 and w2[i_ - 1] == "ret=Err"))
-              for w2 in (["ret=Err" if x_ == "!err" else x_ for x_ in w_] for w_ in ws)}
-        check_words(ob, b, ws, {"id(end_entity) ret=Err <return>", "id(end_entity) pin!=presented ret=Err <return>",
-                                "id(end_entity) pin==presented ret=delegate(end_entity) <return>"}, "ExpectedCertVerifier::verify_server_cert")
+        check_pin_verifier(ob, cx)
 
     with cx.ob("C03.4", "R-MUSTPASS", "wire::handshake: listener returns Ok only after ack written, finished and consumed; dialer only after reading a valid ack") as ob:
         b = cx.coroutine("anemo::network::wire::handshake")
@@ -412,3 +366,55 @@ def check_dials_pinned(ob, cx):
         a_it = [x[3] for x in walk(addr) if x[0] == "call" and name_matches(x[1], "Iterator::next")]
         p_it = [x[3] for x in walk(pid) if x[0] == "call" and name_matches(x[1], "Iterator::next")]
         ob.require(bool(a_it) and set(a_it) == set(p_it) and mentions_field(addr, "address"), "pin/address-of-same-peer", "dialed address and pinned id do not come from the same known-peer entry", hc.path)
+
+
+def check_pin_verifier(ob, cx):
+    """Body of C03.3 (also re-evaluated by C01.11 without running all of C03)."""
+    prog = cx.prog
+    b = cx.impl_method(EV, "ServerCertVerifier", "verify_server_cert")
+    cv = cx.impl_method(f"{CR}::CertVerifier", "ServerCertVerifier", "verify_server_cert")
+
+    def call_sym(c, o):
+        if name_matches(c.fn, f"{CR}::peer_id_from_certificate"):
+            return "id(end_entity)" if is_param(o.of_operand(c.args[0]), "end_entity") else "id(?)"
+        if c.res == cv.path or name_matches(c.fn, "ServerCertVerifier::verify_server_cert"):
+            a = [o.of_operand(x) for x in c.args]
+            ok = mentions_field(a[0], "0") and mentions_param(a[0], "self") and is_param(a[1], "end_entity") and is_param(a[2], "intermediates") \
+                and is_param(a[3], "server_name") and is_param(a[5], "now") and c.dest == 0 and c.res == cv.path
+            return "ret=delegate(end_entity)" if ok else "delegate(?)"
+        if name_matches(c.fn, ("ServerCertVerified::assertion",)):
+            return "assertion!"
+        return None
+
+    def extra(a, bb, subj, labels, o):
+        n = normalize_cmp(subj)
+        if n is None:
+            return None
+        neg, op, x, y = n
+        if op not in ("eq", "ne") or labels not in ({"true"}, {"false"}):
+            return None
+        sides = []
+        for t in (x, y):
+            if term_has_call(t, f"{CR}::peer_id_from_certificate") and any(v[0] == "variant" and v[2] == "Continue" for v in walk(t)):
+                sides.append("presented")
+            elif mentions_field(t, "1") and mentions_param(t, "self"):
+                sides.append("pin")
+            else:
+                sides.append("?")
+        if sorted(sides) != ["pin", "presented"]:
+            return f"?cmp({show(x)[:30]},{show(y)[:30]})"
+        equal = (labels == {"true"}) != neg
+        if op == "ne":
+            equal = not equal
+        return "pin==presented" if equal else "pin!=presented"
+
+    def stmt_sym(bbi, s, o):
+        if s["lhs"] == 0 and s["rv"]["k"] == "agg" and s["rv"].get("adt") == "core::result::Result":
+            return "ret=" + s["rv"]["variant"]
+        return None
+    ws = seq_words(b, call_sym, stmt_sym, extra)
+    # an error exit is an error exit whether written `return Err(..)` or propagated with `?` (from a helper that built it)
+    ws = {tuple(x_ for i_, x_ in enumerate(w2) if not (x_ == "ret=Err" and i_ > 0 and w2[i_ - 1] == "ret=Err"))
+          for w2 in (["ret=Err" if x_ == "!err" else x_ for x_ in w_] for w_ in ws)}
+    check_words(ob, b, ws, {"id(end_entity) ret=Err <return>", "id(end_entity) pin!=presented ret=Err <return>",
+                            "id(end_entity) pin==presented ret=delegate(end_entity) <return>"}, "ExpectedCertVerifier::verify_server_cert")
